@@ -50,6 +50,8 @@ class DefGen:
             n = "".join(r.choice(NAME_PARTS) for _ in range(k))
             if len(n) < 2 or n in used or n.endswith("Ms") or n in ("ErrorCode", "PartitionErrorCode"):
                 continue
+            if n.lower() in {u.lower() for u in used}:
+                continue       # "Id" and "ID" are one Python name: two such fields in one struct are not a well-formed definition
             import keyword
             if keyword.iskeyword(n.lower()) or keyword.iskeyword(re.sub(r"(?<!^)(?=[A-Z])", "_", n).lower()):
                 continue       # the generator does not escape Python keywords (outside the supported subset)
